@@ -170,6 +170,11 @@ def c15(ctx):
                 ctx.violation('spec', 'discovery answered %s although a Manifest candidate on the way cannot be read (%s): an unreadable object '
                               'was treated as non-existent' % (iv[1], mi[1]), {'where': 'find_top_level', 'case': c, 'impl': iv, 'model': mi, 'devs': res['devs']})
                 continue
+            if mi[0] == 'ok' and iv[0] == 'err':
+                ctx.violation('spec', 'discovery failed with %s although every Manifest candidate on the way up can be read: the outermost covering Manifest '
+                              'is %s%s' % (iv[1], mi[1] or 'none (answer: nothing)', ' (the outermost level is the root directory of the process)' if res.get('chrooted') else ''),
+                              {'where': 'find_top_level', 'case': c, 'impl': iv, 'model': mi, 'devs': res['devs']})
+                continue
             ctx.violation('spec' if clean else 'correspondence',
                           ('discovery returned %s but the outermost covering Manifest is %s (Spec/FindTop.v is_answer, '
                            'via theorem C15_outermost)' % (iv[1], mi[1])) if clean else
